@@ -67,3 +67,39 @@ def running_load(fn, loop):
 
 def consuming_calls(fn):
     return [l.next for l in input_loops(fn)]
+
+
+def calls_reaching(fn, pattern, depth=2):
+    """calls in fn whose callee matches `pattern`, or is a local function that (within `depth` levels) contains such a call:
+    extracting the body of a loop into a helper must not hide the call from the path rules"""
+    rx = re.compile(pattern)
+    P = fn.prog
+    memo = {}
+
+    def contains(key, d):
+        if (key, d) in memo:
+            return memo[(key, d)]
+        g = P.fns.get(key)
+        res = False
+        if g is not None:
+            for c in g.calls:
+                if rx.search(short(c.name)):
+                    res = True
+                    break
+                if d > 0:
+                    for k2 in P.callee_keys(g, c):
+                        if contains(k2, d - 1):
+                            res = True
+                            break
+                if res:
+                    break
+        memo[(key, d)] = res
+        return res
+
+    out = []
+    for c in fn.calls:
+        if rx.search(short(c.name)):
+            out.append(c)
+        elif depth > 0 and any(contains(k, depth - 1) for k in P.callee_keys(fn, c)):
+            out.append(c)
+    return out
